@@ -1764,6 +1764,11 @@ function runLink(job) {
 
 // ---------------------------------------------------------------- main loop
 function handle(job) {
+  // nothing of one job may reach the next one: pending timers of the previous world are dropped
+  // and the simulated clock starts over
+  SIM.queue = []
+  SIM.now = 1_000_000
+  SIM.seq = 0
   try {
     if (job.kind === 'world') return runWorld(job)
     if (job.kind === 'lockstep') return runLockstep(job)
